@@ -378,15 +378,19 @@ type evidence struct {
 }
 
 func (c *Ctx) finish(p *Prop, kf *knownFile, evPath string, seed int, start time.Time, extra map[string]interface{}) int {
-	// de-duplicate obligations by key, keep first; sort for stable output
-	seen := map[string]bool{}
+	// de-duplicate obligations by key; of several with the same key a failing one is kept (two sites that a rule
+	// describes in the same words must not hide each other); sort for stable output
+	seen := map[string]int{}
 	var obs []Obligation
 	for _, o := range c.obs {
 		k := o.Rule + "\x00" + o.Construct
-		if seen[k] {
+		if i, dup := seen[k]; dup {
+			if obs[i].OK && !o.OK {
+				obs[i] = o
+			}
 			continue
 		}
-		seen[k] = true
+		seen[k] = len(obs)
 		obs = append(obs, o)
 	}
 	sort.SliceStable(obs, func(i, j int) bool {
